@@ -6,16 +6,20 @@ Units (all extracted mechanically from /repo on every run):
   spl_set_area_exp    spl_eroder::set_area_exp                          spl.hpp:160-164
   spl_ctor            spl_eroder constructor (mem-initialisers + body)  spl.hpp:103-114
   spl_newton_branch   the `else { ... }` branch of erode (Newton-Raphson on the elevation drop)   spl.hpp:321-352
-  spl_node_step       the body of `for (inode : nodes_indices_bottomup())` in erode, outlined as a function of the
-                      position in the order; its `continue`s (outside nested loops) become `return`, the Newton branch
-                      is a call to spl_newton_branch                    spl.hpp:254-367
+  spl_recv_step       the body of the SECOND receiver loop of erode (one receiver's contribution to the discrete equation:
+                      all the multiplications / pow / the Newton call), outlined                  spl.hpp:292-353
+  spl_node_step       the body of `for (inode : nodes_indices_bottomup())` in erode, outlined as a function of the node; its
+                      `continue`s (outside nested loops) become `return`; the second receiver loop's body is a call to
+                      spl_recv_step                                      spl.hpp:254-367
   spl_erode           erode() with that body replaced by a call to spl_node_step; closed by a loop contract over an
-                      arbitrary ghost node                              spl.hpp:240-370
+                      arbitrary ghost node                               spl.hpp:240-370
 
-Ghost state: G an arbitrary node; POS the inverse of the bottom-up order (order contract of C06, assumed, instantiated
-on read: a receiver precedes its donors); SPL_H / SPL_U the elevation and the updated elevation of node G captured at the
-final store `m_erosion.flat(inode) = h - u`; SPL_N_* the residual last tested against the tolerance in the Newton loop.
-std::pow is fsl_pow (assumed contract of models/fsl.h: >= 0 for a non-negative base, nothing else)."""
+Ghost state: G an arbitrary node; POS the inverse of the bottom-up order (order contract of C06, assumed); captured at G's
+own iteration: SPL_NX[k] the post-erosion elevation of G's k-th receiver as the code computes it in the first receiver loop,
+SPL_GE[k]/SPL_GER[k] its operands, SPL_H/SPL_U/SPL_ER the operands and the value of the final store erosion = h - u;
+SPL_N_* the value last tested against the tolerance in the Newton loop.  The C12 clauses are comparisons between these
+computed values (DESIGN 3.4: never two copies of one floating-point circuit); that the captured values are the stated
+differences is the separate group spl.step.defs.  std::pow is fsl_pow (assumed contract of models/fsl.h)."""
 import os
 import re
 
@@ -510,7 +514,6 @@ void h_%(fn)s(void)
     double dt = nondet_double(), m_area_exp = nondet_double(), m_slope_exp = nondet_double(), m_tolerance = nondet_double();
     _Bool m_linear = nondet_bool();
     G = nondet_size_t(); SPL_H = nondet_double(); SPL_U = nondet_double(); SPL_ER = nondet_double();
-    for (int k = 0; k < REC_W; ++k) { SPL_NX[k] = nondet_double(); SPL_GE[k] = nondet_double(); SPL_GER[k] = nondet_double(); }
     SPL_N_FUNC = nondet_double(); SPL_N_AT = nondet_double(); SPL_N_DELTA = nondet_double(); SPL_N_DELTA0 = nondet_double();
     %(fn)s(%(lead)s%(args)s);
     __CPROVER_assert(0, "canary: postcondition point reachable");
@@ -529,7 +532,6 @@ void h_%(fn)s(void)
     double dt = nondet_double(), m_area_exp = nondet_double(), m_slope_exp = nondet_double(), m_tolerance = nondet_double();
     _Bool m_linear = nondet_bool();
     G = nondet_size_t(); SPL_H = nondet_double(); SPL_U = nondet_double(); SPL_ER = nondet_double();
-    for (int k = 0; k < REC_W; ++k) { SPL_NX[k] = nondet_double(); SPL_GE[k] = nondet_double(); SPL_GER[k] = nondet_double(); }
     SPL_N_FUNC = nondet_double(); SPL_N_AT = nondet_double(); SPL_N_DELTA = nondet_double(); SPL_N_DELTA0 = nondet_double();
     %(fn)s(%(lead)s%(args)s);
     __CPROVER_assert(0, "canary: postcondition point reachable");
@@ -628,7 +630,7 @@ def erode_group(w, tier="quick"):
         name="spl.erode.loop.w%d" % w, units=[newton, make_recv(w), step, outer],
         harness=h_step("spl_erode", "dfs_indices, POS, ", "const size_t *dfs_indices, *POS;"),
         entry="h_spl_erode", enforce="spl_erode", replace=["spl_node_step"], loop_contracts=True,
-        defines=defines(w), backend="sat", timeout=600, min_obligations=40, tier=tier,
+        defines=defines(w), backend="cadical", timeout=900, min_obligations=40, tier=tier,
         clause="C12 for the whole sweep (any number of nodes, using only the node-step contract and the order contract): erosion is reset "
                "at the start of every call and written only in a node's own iteration; outlets/pits and lake nodes end with zero "
                "erosion; every other node's updated elevation u is >= the lowest post-erosion elevation among its receivers, with "
@@ -673,11 +675,15 @@ def c12_groups():
                      "classified (m_linear <=> |n - 1| <= eps) and carries the exponents and tolerance it was given"),
     ]
     for w in (1, 2):
-        gs.append(step_group(w, "zero_clamp", ("frame", "terminal", "lake", "clamp"),
+        gs.append(step_group(w, "zero_clamp", ("frame", "operands", "terminal", "lake", "clamp"),
                              "C12 at one node: erosion written only at the node's own cell; outlet/pit path and lake path "
                              "(elevation <= min over receivers of elev[r] - erosion[r]) leave it untouched; otherwise the updated "
                              "elevation u satisfies u >= elevation_flooded (stated for u that is a number: see spl.recv.number) and erosion = h - u"))
         gs.append(erode_group(w))
+    gs.append(step_group(1, "defs", ("defs",),
+                         "the values the C12 clauses speak about are what their names say: SPL_NX[k] = elevation[rec_k] - erosion[rec_k] "
+                         "(the receiver's post-erosion elevation, computed by the code in the first receiver loop) and the stored erosion "
+                         "= h - u (one floating-point subtraction each, bit-precise)"))
     gs.append(step_group(1, "floor", ("floor",),
                          "C12 returned_value_respects_floor: for the value actually returned (erosion = h - u) the caller's new elevation "
                          "elevation - erosion is not below the lowest post-erosion receiver elevation"))
@@ -695,8 +701,6 @@ def c13_groups():
               clause="C13 linear_classification: m_linear <=> 1 - eps <= n <= 1 + eps, for every double n incl. NaN/inf (bit-precise)"),
         newton_group("exit", "C13 newton_exit: the Newton loop is left with |residual| <= tolerance at the returned drop, or with a "
                              "drop <= 0 (erosion limited); pow abstracted (>= 0 only)"),
-        newton_group("shape", "C13: the branch returns u = h - (delta_0 - delta) with delta_0 = h - h'_r (supporting the exit clause: "
-                              "the drop the residual was tested at is the one the node is lowered by)"),
         newton_group("progress", "C13: under finite non-negative factor, positive finite distance and exponent, tolerance >= 0 and h > h'_r, "
                                  "the drop stays a positive number and only decreases (what termination rests on); pow abstracted"),
     ]
@@ -704,6 +708,8 @@ def c13_groups():
 
 _C12 = c12_groups()
 _C13 = c13_groups()
+for _g in _C12 + _C13:
+    _g.replay = "replay/spl.cpp"
 GROUPS = {"C12": _C12, "C13": _C13 + [g for g in _C12 if g.name == "spl.ctor"]}
 
 PROPS = {
@@ -722,7 +728,14 @@ PROPS = {
             "are declared inside the body (dead at the loop head)",
             "`auto` locals of erode: the receiver count is a size_type, every other `auto` local a double",
             "xtensor `m_erosion.fill(0)` modelled element-wise (own loop contract)",
-            "ghost capture: SPL_H, SPL_U are the operands of the final store m_erosion.flat(inode) = h - u at the ghost node",
+            "ghost capture at the ghost node's own iteration: SPL_NX[k] = the receiver's post-erosion elevation computed in the first "
+            "receiver loop with its operands SPL_GE[k], SPL_GER[k]; SPL_H, SPL_U, SPL_ER = operands and value of the final store "
+            "m_erosion.flat(inode) = h - u.  The clauses compare these computed values; spl.step.defs proves SPL_NX[k] = "
+            "elevation[rec_k] - erosion[rec_k] and SPL_ER = h - u, the sweep proves that the operands are the receivers' cells of the "
+            "RETURNED erosion array (receivers are final when the node is processed)",
+            "the body of the second receiver loop is outlined (spl_recv_step): in the node step it is replaced by its contract "
+            "(assigns only the numerator/denominator of the node's equation); its contract asks for valid tables (validity predicates, "
+            "established at the call site from the node step's own tables; its own group allocates them in the harness)",
             "finite elevations at the ghost node and its receivers (quantifier of the property)",
         ],
         undecided=[
@@ -732,6 +745,8 @@ PROPS = {
         unmechanised=[
             "from 'u >= lowest post-erosion receiver elevation at every node' to 'no new closed depression': every non-terminal, non-lake "
             "node keeps a receiver that is not higher than it after the step (one line, by definition of a depression)",
+            "the definitional equalities of spl.step.defs (proved for the node step) hold at the end of the sweep because the ghosts are "
+            "not assigned after G's iteration (frame clause of the node step, proved)",
         ],
     ),
     "C13": dict(
